@@ -14,6 +14,11 @@ pub struct BackendError { pub _p: () }
 /// sos_core::Error (crates/core/src/error.rs) — opaque
 #[derive(Debug)]
 pub struct CoreError { pub _p: () }
+impl From<CoreError> for BackendError {
+    /// `#[from] sos_core::Error` variant of sos_backend::Error
+    #[verifier::external_body]
+    fn from(_e: CoreError) -> BackendError { BackendError { _p: () } }
+}
 pub mod sos_backend { pub type Error = super::BackendError; }
 pub mod sos_core { pub type Error = super::CoreError; }
 
